@@ -5,8 +5,12 @@ of its runs. The step harnesses (one per message handler) carry the obligations 
 properties; their executions are shared between the properties through the content-hash
 memoisation of the driver."""
 
-DEC_BOUNDS = {"quick": {"digits": 45, "exp_lo": -12, "exp_hi": 12},
-              "thorough": {"digits": 60, "exp_lo": -30, "exp_hi": 40}}
+# decimal kernels: coefficients up to `digits` digits, exponents exp_lo..exp_hi; products and
+# quotients of two symbolic decimals are uninterpreted (mul_abstract: the obligations hold for
+# every value they may take) with x/y exponents split into one path each
+DEC_BOUNDS = {"all": {"mul_abstract": 1, "dec_coeff_form": 1},
+              "quick": {"digits": 45, "exp_lo": -12, "exp_hi": 12, "xexp_lo": -6, "xexp_hi": 2, "yexp_lo": -2, "yexp_hi": 1},
+              "thorough": {"digits": 50, "exp_lo": -24, "exp_hi": 30, "xexp_lo": -12, "xexp_hi": 12, "yexp_lo": -6, "yexp_hi": 6}}
 
 # handler-level runs: rounding results are modelled relationally and products of two
 # symbolic decimals abstractly (round_abstract); the exact rounding/products are the subject
@@ -34,8 +38,17 @@ ID_BOUNDS = {"quick": {"seq_digits": 5, "denom_lo": 27, "denom_hi": 30},
 # hash (collision chains of iter-1 occupied slots)
 DATA_BOUNDS = {"quick": {"list": 2, "iter": 3}, "thorough": {"list": 3, "iter": 4}}
 
-COST_BOUNDS = {"quick": {"ask_digits": 12, "qty_digits": 8, "exp_lo": -8, "exp_hi": 4},
-               "thorough": {"ask_digits": 14, "qty_digits": 10, "exp_lo": -8, "exp_hi": 4}}
+# cost/fee kernels: products of two symbolic decimals are uninterpreted (mul_abstract) with the
+# bound "q < 10^qty_digits and ask < 10^ask_digits => q*ask < 10^(sum)" stated in the harness;
+# ask_digits + qty_digits + 6 + (-exp_lo) <= 34 keeps every product inside decimal128, which is
+# the region the exactness obligations are about (outside it: known finding F5)
+COST_BOUNDS = {"all": {"mul_abstract": 1},
+               "quick": {"ask_digits": 12, "qty_digits": 8, "exp_lo": -8, "exp_hi": 4},
+               "thorough": {"ask_digits": 14, "qty_digits": 8, "exp_lo": -6, "exp_hi": 6}}
+# the rounding region itself is explored with real products (the solver finds the witness)
+ROUNDING_BOUNDS = {"quick": {"exp_lo": -8, "exp_hi": 4}, "thorough": {"exp_lo": -8, "exp_hi": 4}}
+QUERY_BOUNDS = {"all": {"round_abstract": 1}, "quick": {"iter": 2, "list": 1}, "thorough": {"iter": 3, "list": 1}}
+QUERY_BOUNDS_BASKET = {"all": {"round_abstract": 1, "dec_coeff_form": 1}, "quick": {"iter": 2, "list": 1}, "thorough": {"iter": 3, "list": 1}}
 
 # the step harnesses that are cheap enough for the quick tier
 QUICK_MARKET = "Step_Market(Sell|UpdateSellOrders|CancelSellOrder|AddAllowedDenom|RemoveAllowedDenom|GovSetFeeParams|GovSendFromFeePool|PruneSellOrders)"
@@ -52,7 +65,12 @@ def step_runs():
 
 
 def kernel_cost():
-    return {"module": "ecocredit", "pkg": "./marketplace/keeper", "harness": "(C07|C18)_.*", "bounds": COST_BOUNDS,
+    return {"module": "ecocredit", "pkg": "./marketplace/keeper", "harness": "(C07_CostKernel|C18_FeeParamsUse)", "bounds": COST_BOUNDS,
+            "timeout_ms": {"quick": 60000, "thorough": 120000}}
+
+
+def kernel_rounding():
+    return {"module": "ecocredit", "pkg": "./marketplace/keeper", "harness": "C07_SubtotalRounding", "bounds": ROUNDING_BOUNDS,
             "timeout_ms": {"quick": 60000, "thorough": 120000}}
 
 
@@ -65,7 +83,7 @@ PROPS = {
     "C04": {"title": "retirement permanence", "runs": step_runs(), "technique": STEP_TECH + "; monotonicity per step"},
     "C05": {"title": "basket tokens fully backed", "runs": step_runs(), "technique": STEP_TECH},
     "C06": {"title": "escrow equals open sell orders", "runs": step_runs(), "technique": STEP_TECH},
-    "C07": {"title": "BuyDirect settles exactly", "runs": [kernel_cost()] + step_runs(),
+    "C07": {"title": "BuyDirect settles exactly", "runs": [kernel_cost(), kernel_rounding()] + step_runs(),
             "technique": "go/ssa symbolic execution of the cost/fee kernel against exact rationals + SMT (non-linear real/integer arithmetic), plus the BuyDirect step harness"},
     "C08": {"title": "authorisation and sealed batches", "runs": step_runs(), "technique": STEP_TECH + "; role predicate on the pre-state for every successful path"},
     "C09": {"title": "genesis export/validate/re-import (kernel: state validators are handler invariants)", "runs": step_runs(),
@@ -84,6 +102,13 @@ PROPS = {
             "runs": [{"module": "data", "pkg": "./server", "harness": "C16_.*", "bounds": DATA_BOUNDS},
                      {"module": "data", "pkg": "./server/hasher", "harness": "C16_.*", "bounds": {"quick": {"collisions": 300}, "thorough": {"collisions": 20000}}}],
             "technique": "one-step inductive invariant over the four data messages: go/ssa symbolic execution of the real handlers on model tables with arbitrary pre-state and an uninterpreted ID hash function + SMT; CreateID kernel on an arbitrary digest"},
+    "C17": {"title": "list queries return exactly the matching state (filters, joins, field fidelity)",
+            "runs": [{"module": "ecocredit", "pkg": "./base/keeper", "harness": "C17_.*", "bounds": QUERY_BOUNDS},
+                     {"module": "ecocredit", "pkg": "./marketplace/keeper", "harness": "C17_.*", "bounds": QUERY_BOUNDS},
+                     {"module": "ecocredit", "pkg": "./basket/keeper", "harness": "C17_.*", "bounds": QUERY_BOUNDS_BASKET},
+                     {"module": "data", "pkg": "./server", "harness": "C17_.*", "bounds": {"quick": {"iter": 2, "list": 1}, "thorough": {"iter": 3, "list": 1}}},
+                     {"module": "ecocredit", "pkg": "./base", "harness": "C14_ParsersOnValidDenom", "bounds": ID_BOUNDS, "prefix": "C14"}],
+            "technique": "go/ssa symbolic execution of the real query handlers on model tables with arbitrary content (finite-witness iterators with the ORM key codec's prefix semantics) against a specification written over primary data + SMT; the id prefix-freedom lemmas are proved at byte level by the C14 kernel"},
     "C18": {"title": "fees exact; accepted parameters never disable a feature", "runs": [kernel_cost()] + step_runs(),
             "technique": "go/ssa symbolic execution: accepted(p) and pre(op) => op succeeds, negated and solved with p symbolic; fee charging on the CreateClass / basket Create step harnesses"},
     "C19": {"title": "decimal arithmetic",
